@@ -176,6 +176,32 @@ theorem consec_last_no_succ {l : List α} {b : α} (hn : (l ++ [b]).Nodup) {y : 
 
 end Consec
 
+theorem nodup_map_of_inj {α β : Type} {f : α → β} (hf : ∀ a b, f a = f b → a = b) {l : List α} (h : l.Nodup) :
+    (l.map f).Nodup := by
+  induction l with
+  | nil => simp
+  | cons a t ih =>
+    have hnd := List.nodup_cons.mp h
+    rw [List.map_cons, List.nodup_cons]
+    refine ⟨?_, ih hnd.2⟩
+    intro hm
+    obtain ⟨b, hb, e⟩ := List.mem_map.mp hm
+    have := hf _ _ e
+    subst this; exact hnd.1 hb
+
+theorem nodup_map_of_inj_on {α β : Type} {f : α → β} {l : List α} (h : l.Nodup)
+    (hf : ∀ a ∈ l, ∀ b ∈ l, f a = f b → a = b) : (l.map f).Nodup := by
+  induction l with
+  | nil => simp
+  | cons a t ih =>
+    have hnd := List.nodup_cons.mp h
+    rw [List.map_cons, List.nodup_cons]
+    refine ⟨?_, ih hnd.2 (fun x hx y hy => hf x (List.mem_cons_of_mem _ hx) y (List.mem_cons_of_mem _ hy))⟩
+    intro hm
+    obtain ⟨b, hb, e⟩ := List.mem_map.mp hm
+    have := hf b (List.mem_cons_of_mem _ hb) a (by simp) e
+    subst this; exact hnd.1 hb
+
 /-! ## inserting after / erasing on duplicate-free lists -/
 
 section ListEdit
